@@ -10,6 +10,7 @@ shift; shift || true
 HERE="$(cd "$(dirname "${BASH_SOURCE[0]}")" && pwd)"
 export CARGO_NET_OFFLINE=true
 export VERIF_DIR="${VERIF_DIR:-$HERE}"
+export VERIF_HOME="$HERE"
 cd "$HERE/harness" || exit 2
 LOG="$(mktemp)"
 if ! cargo build --release --offline >"$LOG" 2>&1; then
